@@ -16,10 +16,12 @@ def run(ctx):
     ctx.rule("R-WAKEUP-COVER", "a deadline set by a job pass reaches that pass's next wake-up, so the timeout is noticed when it expires", floor=6)
     ctx.rule("R-FINISH-NOW", "acknowledged / aborted send sessions are due for removal immediately (pair usable again)", floor=3)
     ctx.rule("R-BAM-FRESH", "a new broadcast announcement never inherits the data of an unfinished one (no mixed message)", floor=2)
+    ctx.rule("R-REFRESH", "every appended data packet re-arms the receive deadline (a live transfer is never timed out)", floor=4)
     for fd in (False, True):
         L = T.Layer(ctx, fd=fd)
         S.deliver_guard(ctx, L)
         S.bam_fresh(ctx, L)
+        S.refresh(ctx, L)
         TM.timeout_const(ctx, L)
         TM.deadline_finite(ctx, L)
         TM.expiry_shape(ctx, L)
